@@ -1,17 +1,23 @@
 #!/bin/bash
-# tools/verify_seed.sh <ID> <mN>   — confirm a seeded change independently in the scratch worktree /tmp/wt-<ID>:
+# tools/verify_seed.sh <ID> <mN> [<source root> [<name under seeded/>]]   — confirm a seeded change independently in the scratch worktree /tmp/wt-<ID>:
 #   patch applies; crate compiles; the existing suite passes with it (the 4 always-fail baseline tests excepted);
 #   demo fails with it; demo passes without it. On success copies patch.diff / demo.rs / meta.json to seeded/<ID>-<mN>/.
 set -u
-ID="$1"; M="$2"; WT="/tmp/wt-$ID"; SRC="/tmp/seed-$ID/$M"; OUT="/verif/seeded/$ID-$M"
+ID="$1"; M="$2"; WT="/tmp/wt-$ID"; SRC="${3:-/tmp/seed-$ID}/$M"; OUT="/verif/seeded/$ID-${4:-$M}"
 export CARGO_NET_OFFLINE=true
 cd "$WT" || exit 2
 git checkout -q -- . ; rm -f tests/zz_seed_demo.rs
 git apply --check "$SRC/patch.diff" || { echo "$ID-$M: patch does not apply"; exit 1; }
 git apply "$SRC/patch.diff"
 if git diff --name-only | grep -v '^src/' | grep -q .; then echo "$ID-$M: patch touches files outside src/"; git checkout -q -- .; exit 1; fi
-suite=$(cargo test --offline --no-fail-fast -j 4 2>&1)
-fails=$(echo "$suite" | grep -E "^test .* FAILED" | grep -v -E "test_hidden_signature_multi_recipient|test_multi_recipient|test_visible_signature_multi_recipient|test_signed_plaintext" )
+run_suite() {
+  suite=$(cargo test --offline --no-fail-fast -j 4 2>&1)
+  fails=$(echo "$suite" | grep -E "^test \S+ \.\.\. FAILED" | grep -v -E "test_hidden_signature_multi_recipient|test_multi_recipient|test_visible_signature_multi_recipient|test_signed_plaintext" )
+}
+run_suite
+# the repository's SSH signing tests fail about once in 30 runs on the unmodified tree (dependency finding K2):
+# when they are the only failures, the suite is run again
+if [ -n "$fails" ] && ! echo "$fails" | grep -v -E "test_keypair_signing_ssh|test_ssh_signed_plaintext" | grep -q .; then run_suite; fi
 compiled=$(echo "$suite" | grep -c -E "^error\[E|could not compile")
 if [ "$compiled" != "0" ]; then echo "$ID-$M: does not compile"; git checkout -q -- .; exit 1; fi
 if [ -n "$fails" ]; then echo "$ID-$M: existing suite fails with the change: $fails"; git checkout -q -- .; exit 1; fi
